@@ -17,9 +17,12 @@ import (
 	"context"
 	"encoding/hex"
 	"encoding/json"
+	"errors"
 	"fmt"
 	"strconv"
 	"strings"
+	"sync/atomic"
+	"time"
 
 	sdk "github.com/alephium/go-sdk"
 	"go.uber.org/zap"
@@ -135,6 +138,79 @@ func (g *fgen) genHunconf(n int) {
 		}()
 		g.emit("hunconf %s mainnet=%s bridge=%s gov=%s ti=%s evs=%s reqs=%s out=%s res=%s", r.id, fb(r.c.mainnet), hex.EncodeToString(r.c.bridge),
 			r.c.gov, r.c.renderTiAddr(), renderEvs(evs), fjoin(g.node.takeLog(), ","), renderUnconfirmeds(out), res)
+	}
+}
+
+// ---------------------------------------------------------------------------------------------
+// the height poller: while enabled it must pass on every polled height, changed or not (pending events can become final by
+// wall-clock time alone), and report an API error.
+//   fheight <id> seq=<h|e,..> got=<h|e|stall,..>
+
+func (g *fgen) genFheight(n int) {
+	for i := 0; i < n; i++ {
+		w := &Watcher{blockPollerEnabled: &atomic.Bool{}, pollIntervalMs: 1, chainIndex: &ChainIndex{}, governanceContractAddress: "x"}
+		w.EnableBlockPoller()
+		k := 2 + g.r.Intn(5)
+		seq := make([]string, k)
+		vals := make([]int32, k)
+		cur := int32(100 + g.r.Intn(100))
+		for j := 0; j < k; j++ {
+			switch g.r.Intn(4) {
+			case 0:
+				cur++
+			case 1:
+				cur -= int32(g.r.Intn(3))
+			}
+			vals[j] = cur
+			seq[j] = fmt.Sprint(cur)
+		}
+		if g.chance(30) {
+			seq[k-1] = "e"
+		}
+		ctx, cancel := context.WithCancel(context.Background())
+		var idx int32
+		get := func() (*int32, error) {
+			j := int(atomic.AddInt32(&idx, 1)) - 1
+			if j >= k {
+				<-ctx.Done()
+				return nil, ctx.Err()
+			}
+			if seq[j] == "e" {
+				return nil, errors.New("scripted failure")
+			}
+			return &vals[j], nil
+		}
+		errC := make(chan error)
+		hC := make(chan int32)
+		done := make(chan struct{})
+		go func() {
+			defer close(done)
+			w._fetchHeight(ctx, zap.NewNop(), get, errC, hC)
+		}()
+		var got []string
+	loop:
+		for j := 0; j < k; j++ {
+			select {
+			case h := <-hC:
+				got = append(got, fmt.Sprint(h))
+			case <-errC:
+				got = append(got, "e")
+				break loop
+			case <-time.After(2 * time.Second):
+				got = append(got, "stall")
+				break loop
+			}
+		}
+		cancel()
+		for stopped := false; !stopped; {
+			select {
+			case <-done:
+				stopped = true
+			case <-errC:
+			case <-hC:
+			}
+		}
+		g.emit("fheight %s seq=%s got=%s", g.id("fheight"), fjoin(seq, ","), fjoin(got, ","))
 	}
 }
 
@@ -291,18 +367,27 @@ func (g *fgen) pipeCase(mode string) {
 	r.stop()
 }
 
+// genC09: metadata calls of every shape, page conversion, the whole polling pipeline, plus event-loop-only and
+// re-observation cases (a panic or exit there is a C09 matter as well).
 func (g *fgen) genC09() {
-	nTinfo, nHunconf, nPipe := 400, 400, 500
+	nTinfo, nHunconf, nPipe, nPoll, nReobs := 400, 400, 600, 100, 300
 	if g.tier == "thorough" {
-		nTinfo, nHunconf, nPipe = 4000, 4000, 6000
+		nTinfo, nHunconf, nPipe, nPoll, nReobs = 4000, 4000, 8000, 1000, 3000
 	}
 	g.genTinfo(nTinfo)
 	g.genHunconf(nHunconf)
+	g.genFheight(nPipe / 20)
 	for i := 0; i < nPipe; i++ {
 		if i%4 == 3 {
 			g.pipeCase("faulty")
 		} else {
 			g.pipeCase("clean")
 		}
+	}
+	for i := 0; i < nPoll; i++ {
+		g.pollCase()
+	}
+	for i := 0; i < nReobs; i++ {
+		g.reobsCase()
 	}
 }
